@@ -14,7 +14,7 @@ import (
 func init() {
 	register(&PropSpec{
 		ID:       "C09",
-		Patterns: []string{"./pkg/stream/http", "./pkg/stream/xprotocol", "./pkg/stream", "./pkg/stream/http2"},
+		Patterns: []string{"./pkg/stream/http", "./pkg/stream/xprotocol", "./pkg/stream", "./pkg/stream/http2", "./pkg/upstream/cluster"},
 		Explanation: "(R1) lease typestate on the CFG of the ping-pong pools' NewStream: from the point a client is leased (taken out of the idle list or created and counted) every path to a return either binds it to the stream (stream.AddEventListener(client), whose single OnDestroyStream returns or closes it) or is the refused/failed branch on which no client was leased; nothing that can refuse the request (breaker check) may follow the lease. " +
 			"(R2) dirty clients are closed: every boolean field a pool client sets in OnResetStream/OnGoAway must be read in its OnDestroyStream, and on the flag-true edge a Close precedes any re-pooling; a flag that is written and never read anywhere is reported outright. " +
 			"(R3) books under the lock: every access to the idle list happens with the pool mutex held (lockset on the CFG; *Locked helpers are checked at their call sites); the close-event handler removes the client from the idle list, sets closed and decrements the client count inside one critical section; re-pooling is guarded by !closed. " +
@@ -44,6 +44,8 @@ func runC09(c *Ctx) {
 	defer c09SlotClearedBeforeReceive(c)
 	c.Rule("C09.R9", "the client stream handed out for a new try is new, re-initialised as a whole, or a slot tested unused", 3)
 	defer freshStreamPerTry(c, "C09.R9")
+	c.Rule("C09.R10", "a circuit-breaker counter moves by exactly one per Increase/Decrease (no saturation, no clamping)", 2)
+	defer c10CounterStepExact(c, "C09.R10")
 	c.Rule("C09.R8", "a client stream is reset only with a reason for which the pool closes the connection, or where the connection is known to be closed", 6)
 	defer c09ResetCloses(c, "C09.R8")
 	defer c09CloseHandlerUnconditional(c)
